@@ -174,3 +174,16 @@ def judge_internal_steps(problem):
     if conf:
         return True, 'internal variable %s is mapped to step %s but switches dispatch variables of step %s (row %s)' % (conf[0][0], conf[0][1], conf[0][2], conf[0][3])
     return False, 'internal variables are mapped to the steps they act in on the unshimmed code'
+
+
+def delegated(module, **args):
+    """case keyword arguments that hand a case of one property to the machinery of another property's module (the owning property reports it)"""
+    return dict(_delegate=module, args=args)
+
+
+def resolve(prop, kwargs):
+    """(module, keyword arguments) that decide a case: the property's own module, or the one a case is delegated to"""
+    import importlib
+    if isinstance(kwargs, dict) and '_delegate' in kwargs:
+        return importlib.import_module('vf.props.' + kwargs['_delegate'].lower()), kwargs['args']
+    return importlib.import_module('vf.props.' + prop.lower()), kwargs
